@@ -185,7 +185,7 @@ pub fn execute(program: &Program, mode: &mut Mode, budget_mult: usize) -> Result
         steps += 1;
         if steps > budget {
             let _ = sys.finish();
-            return Err(SchedError::Budget);
+            return Err(SchedError::Budget(tr.choices.clone()));
         }
         tr.choices.push(choice.clone());
         tr.sched_sig = rng::mix2(tr.sched_sig, match &choice {
@@ -391,7 +391,7 @@ pub fn execute(program: &Program, mode: &mut Mode, budget_mult: usize) -> Result
                 steps += 1;
                 if steps > budget * 4 {
                     let _ = sys.finish();
-                    return Err(SchedError::Budget);
+                    return Err(SchedError::Budget(tr.choices.clone()));
                 }
             }
             drain!();
